@@ -6,3 +6,4 @@ open GoMail.Props.C04
 #print axioms no_ext_after_helo
 #print axioms rcpt_without_dsn_is_bare
 #print axioms mail_line_single
+#print axioms session_is_legal
